@@ -15,6 +15,14 @@
 //! catalogue (every operator x canonical definitions x direction x a lattice of special
 //! f64 values in all four coordinate slots) and direct calls of every public function of
 //! the ellipsoid, angular and tokenizer modules.
+//!
+//! For a Plain context the register / resource files found on disk are input as well
+//! (`op("prefix:suffix")` reads `<prefix>.md` and `<prefix>_<suffix>.resource`): sections
+//! `resource-files-truncated` (enumerated: item sets x fence layouts x line endings x search
+//! path places, every file cut at every byte length and rewritten between calls on the same
+//! context) and `resource-files-random` (drawn structure, byte-level mutations incl. invalid
+//! UTF-8, very long lines, directories in the way) generate that environment in a private
+//! tree that is cwd / XDG_DATA_HOME only while they run.
 
 use geodesy::authoring::*;
 use proptest::prelude::*;
@@ -2229,6 +2237,980 @@ fn check_probe(c: &ProbeCase, rec: &mut Rec) -> CaseResult {
 }
 
 // =====================================================================================
+// Resource files on disk: the environment part of the input of a Plain context
+// =====================================================================================
+//
+// `Plain::op("prefix:suffix")` reads `<prefix>_<suffix>.resource` and the register
+// `<prefix>.md` (items fenced by ```geodesy:<suffix> ... ```) below ./geodesy/resources and
+// $XDG_DATA_HOME/geodesy/resources. Those files are input like the definition text is, so
+// they are generated too: well-formed, cut at every byte length, with missing / doubled /
+// nested / malformed fences, all line ending conventions, empty bodies, multi-byte
+// characters and invalid UTF-8 around the fences, very long lines, directories in the
+// place of files - and rewritten between two calls on the same context.
+//
+// The sections run in a private tree (/tmp/verif-c09-<pid>/{w,u}) that is the process cwd
+// (and XDG_DATA_HOME) only while they run: sections are executed one after the other, so
+// nothing else observes the change. All shards share the two directories; every file name
+// carries a per-thread tag of fixed width (`{T}` in the case), so concurrent cases never see
+// each other's files and the outcome of a case does not depend on the thread it runs on.
+//
+// Bounded expansion (the nesting limit is 100, so a body that calls itself twice would be
+// a 2^100 expansion, not a hang of the library): in every generated file, the text after any
+// tag contains at most one call of an item at or before it; files that get byte-level
+// mutations contain no macro calls at all. Cutting a file only shortens its last token.
+
+const TAG_PH: &str = "{T}";
+
+#[derive(Clone, Debug, Serialize, Deserialize, PartialEq, Eq, Hash)]
+enum Content {
+    Utf8(String),
+    Raw(Vec<u8>),
+    /// a directory of that name instead of a file
+    Directory,
+}
+impl Content {
+    fn from_bytes(b: Vec<u8>) -> Content {
+        match String::from_utf8(b) {
+            Ok(s) => Content::Utf8(s),
+            Err(e) => Content::Raw(e.into_bytes()),
+        }
+    }
+    fn bytes(&self) -> Option<&[u8]> {
+        match self {
+            Content::Utf8(s) => Some(s.as_bytes()),
+            Content::Raw(b) => Some(b),
+            Content::Directory => None,
+        }
+    }
+    fn cut(&self, at: usize) -> Content {
+        match self.bytes() {
+            Some(b) => Content::from_bytes(b[..at.min(b.len())].to_vec()),
+            None => Content::Directory,
+        }
+    }
+}
+
+#[derive(Clone, Debug, Serialize, Deserialize)]
+struct EnvFile {
+    /// 0: ./geodesy/resources (cwd), 1: $XDG_DATA_HOME/geodesy/resources
+    place: u8,
+    /// `{T}` stands for the per-thread tag (3 characters, like the place holder)
+    name: String,
+    content: Content,
+}
+
+#[derive(Clone, Debug, Serialize, Deserialize)]
+struct ResCall {
+    kind: String,
+    def: String,
+}
+
+/// Stage 0: all files as given; stage k: file `victim` rewritten, cut to `cuts[k-1]` bytes.
+/// Every stage: all `calls` on one and the same Plain context.
+#[derive(Clone, Debug, Serialize, Deserialize)]
+struct ResCase {
+    /// generator's view, for the class histogram only
+    label: String,
+    tags: Vec<String>,
+    files: Vec<EnvFile>,
+    victim: usize,
+    cuts: Vec<usize>,
+    calls: Vec<ResCall>,
+    coords: Vec<P4>,
+}
+
+struct ResWorld {
+    root: PathBuf,
+    w: PathBuf,
+    u: PathBuf,
+}
+static RES_WORLD: OnceLock<ResWorld> = OnceLock::new();
+
+fn setup_res_world() -> &'static ResWorld {
+    RES_WORLD.get_or_init(|| {
+        let pid = std::process::id();
+        let tmp = std::env::temp_dir();
+        // trees left behind by killed runs
+        if let Ok(rd) = std::fs::read_dir(&tmp) {
+            for e in rd.flatten() {
+                let n = e.file_name().to_string_lossy().to_string();
+                if let Some(p) = n.strip_prefix("verif-c09-").and_then(|p| p.parse::<u32>().ok()) {
+                    if p != pid && !std::path::Path::new(&format!("/proc/{p}")).exists() {
+                        let _ = std::fs::remove_dir_all(e.path());
+                    }
+                }
+            }
+        }
+        let root = tmp.join(format!("verif-c09-{pid}"));
+        let _ = std::fs::remove_dir_all(&root);
+        let w = root.join("w").join("geodesy").join("resources");
+        let u = root.join("u").join("geodesy").join("resources");
+        for d in [&w, &u] {
+            if let Err(e) = std::fs::create_dir_all(d) {
+                eprintln!("cannot create {}: {e}", d.display());
+                std::process::exit(2);
+            }
+        }
+        ResWorld { root, w, u }
+    })
+}
+
+fn thread_tag() -> String {
+    const D: &[u8; 36] = b"0123456789abcdefghijklmnopqrstuvwxyz";
+    match rayon::current_thread_index() {
+        Some(i) => {
+            let i = i % 1296;
+            format!("t{}{}", D[i / 36] as char, D[i % 36] as char)
+        }
+        None => "m00".to_string(),
+    }
+}
+
+fn subst_bytes(b: &[u8], tag: &str) -> Vec<u8> {
+    let ph = TAG_PH.as_bytes();
+    let mut out = Vec::with_capacity(b.len());
+    let mut i = 0;
+    while i < b.len() {
+        if b[i..].starts_with(ph) {
+            out.extend_from_slice(tag.as_bytes());
+            i += ph.len();
+        } else {
+            out.push(b[i]);
+            i += 1;
+        }
+    }
+    out
+}
+
+fn env_path(world: &ResWorld, tag: &str, f: &EnvFile) -> Option<PathBuf> {
+    let name = if f.name.contains(TAG_PH) { f.name.replace(TAG_PH, tag) } else { format!("{tag}{}", f.name) };
+    if name.contains('/') || name.contains('\0') || name.len() > 200 {
+        return None;
+    }
+    Some(if f.place == 0 { &world.w } else { &world.u }.join(name))
+}
+
+fn remove_any(p: &PathBuf) {
+    if std::fs::remove_file(p).is_err() {
+        let _ = std::fs::remove_dir(p);
+    }
+}
+
+struct Cleanup(Vec<PathBuf>);
+impl Drop for Cleanup {
+    fn drop(&mut self) {
+        for p in &self.0 {
+            remove_any(p);
+        }
+    }
+}
+
+fn write_env(world: &ResWorld, tag: &str, f: &EnvFile, content: &Content, cleanup: &mut Cleanup) -> bool {
+    let Some(p) = env_path(world, tag, f) else { return false };
+    remove_any(&p);
+    if !cleanup.0.contains(&p) {
+        cleanup.0.push(p.clone());
+    }
+    match content.bytes() {
+        None => std::fs::create_dir(&p).is_ok(),
+        Some(b) => std::fs::write(&p, subst_bytes(b, tag)).is_ok(),
+    }
+}
+
+fn show_bytes(b: &[u8]) -> String {
+    match std::str::from_utf8(b) {
+        Ok(s) => show(s),
+        Err(_) => format!("(not UTF-8) {}", show(&String::from_utf8_lossy(b))),
+    }
+}
+
+fn describe_env(case: &ResCase, stage: usize, tag: &str) -> String {
+    let mut s = String::new();
+    for (i, f) in case.files.iter().enumerate() {
+        let dir = if f.place == 0 { "./geodesy/resources" } else { "$XDG_DATA_HOME/geodesy/resources" };
+        let name = f.name.replace(TAG_PH, tag);
+        let content = if stage > 0 && i == case.victim { f.content.cut(case.cuts[stage - 1]) } else { f.content.clone() };
+        let full = f.content.bytes().map(|b| b.len()).unwrap_or(0);
+        match content.bytes() {
+            None => s.push_str(&format!("\n  {dir}/{name}: a directory")),
+            Some(b) => {
+                let b = subst_bytes(b, tag);
+                let cut = if stage > 0 && i == case.victim { format!(", cut to {} of {full} bytes", b.len()) } else { String::new() };
+                s.push_str(&format!("\n  {dir}/{name} ({} bytes{cut}): {}", b.len(), show_bytes(&b)));
+            }
+        }
+    }
+    s
+}
+
+/// Every text the documented formats can hand to the tokenizer from this content: the whole
+/// file (separate resource file) and what follows each register tag up to the next fence and
+/// up to the end of the file.
+fn candidate_bodies(b: &[u8]) -> Vec<String> {
+    let t = String::from_utf8_lossy(b).replace('\r', "\n");
+    let mut out = vec![t.clone()];
+    let mut rest: &str = &t;
+    while let Some(i) = rest.find("```geodesy:") {
+        rest = &rest[i + 3..];
+        let Some(nl) = rest.find('\n') else { break };
+        let after = &rest[nl + 1..];
+        out.push(after.to_string());
+        if let Some(j) = after.find("```") {
+            out.push(after[..j].to_string());
+        }
+    }
+    out
+}
+
+/// Panic messages about slicing quote the sliced text between back ticks - here the content
+/// of a generated file: the key stops there, and runs of blanked digits collapse to one.
+fn res_panic_key(p: &PanicInfo) -> String {
+    let k = panic_key(p);
+    let k = k.split('`').next().unwrap_or("").trim_end().to_string();
+    let mut out = String::with_capacity(k.len());
+    for c in k.chars() {
+        if c == '#' && out.ends_with('#') {
+            continue;
+        }
+        out.push(c);
+    }
+    out
+}
+
+fn check_res(case: &ResCase, rec: &mut Rec) -> CaseResult {
+    let world = RES_WORLD.get().expect("resource world");
+    let tag = thread_tag();
+    let tag = tag.as_str();
+    let mut cleanup = Cleanup(vec![]);
+    let mut ctx = Plain::new();
+    let mut minimal = Minimal::new();
+    let mut coll = Coll::default();
+    let hang_flag = HANG_MODIFIER_ONLY.load(Ordering::Relaxed);
+    for t in &case.tags {
+        rec.class(&format!("tag:{t}"));
+    }
+    'stages: for stage in 0..=case.cuts.len() {
+        for (i, f) in case.files.iter().enumerate() {
+            if stage > 0 && i != case.victim {
+                continue;
+            }
+            let content = if stage > 0 { f.content.cut(case.cuts[stage - 1]) } else { f.content.clone() };
+            if hang_flag {
+                if let Some(b) = content.bytes() {
+                    if candidate_bodies(&subst_bytes(b, tag)).iter().any(|t| has_modifier_only_step(t)) {
+                        rec.count("excluded_known_modifier_only_step", 1);
+                        rec.class("excluded/modifier-only-step");
+                        return Ok(());
+                    }
+                }
+            }
+            if !write_env(world, tag, f, &content, &mut cleanup) {
+                rec.count("files_not_written", 1);
+                return Ok(());
+            }
+            rec.count("files_written", 1);
+            if stage > 0 {
+                rec.count("truncations", 1);
+            }
+        }
+        let stage_name = if stage == 0 { "as generated".to_string() } else { format!("after rewriting file #{} cut to {} bytes (same context)", case.victim, case.cuts[stage - 1]) };
+        for call in &case.calls {
+            // names that cannot reach an item are tried on the files as generated and after the first rewrite only
+            if stage > 1 && (call.kind == "malformed" || call.kind == "absent-file") {
+                continue;
+            }
+            let def = call.def.replace(TAG_PH, tag);
+            if hang_flag && has_modifier_only_step(&def) {
+                continue;
+            }
+            let what = || format!("Plain context, cwd and XDG_DATA_HOME in a private tree, files {stage_name}:{}\n  definition {}", describe_env(case, stage, tag), show(&def));
+            let outcome: String;
+            match try_op(&mut ctx, &def) {
+                Err(p) => {
+                    coll.add(res_panic_key(&p), format!("instantiation panics: {}: {} at {}:{}", what(), p.msg, p.file, p.line));
+                    outcome = "panic".into();
+                }
+                Ok(Err(e)) => {
+                    let c = err_class(&e);
+                    outcome = format!("err-{c}");
+                    if !matches!(e, Error::NotFound(_, _)) {
+                        rec.nontrivial(&(&case.files[case.victim].content, stage > 0, case.cuts.get(stage.wrapping_sub(1)), &call.def, c));
+                    }
+                }
+                Ok(Ok(op)) => {
+                    outcome = "instantiated".into();
+                    rec.count("plain_instantiated", 1);
+                    rec.nontrivial(&(&case.files[case.victim].content, stage > 0, case.cuts.get(stage.wrapping_sub(1)), &call.def));
+                    if let Err(mut f) = apply_all(&ctx, op, 0, &case.coords, "<ENV>") {
+                        f.msg = f.msg.replace("<ENV>", &what());
+                        coll.add(f.key, f.msg);
+                    }
+                    rec.count("tuples_applied", 4 * case.coords.len() as u64);
+                }
+            }
+            rec.count("plain_op_calls", 1);
+            rec.class(&format!("call:{}/{}", call.kind, outcome));
+            rec.class(&format!("env:{}/{}", case.label, if outcome == "instantiated" { "instantiated" } else { "error" }));
+            if stage == 0 {
+                // the same names in a context that has no disk behind it
+                match try_op(&mut minimal, &def) {
+                    Err(p) => coll.add(panic_key(&p), format!("instantiation panics: Minimal context, definition {}: {} at {}:{}", show(&def), p.msg, p.file, p.line)),
+                    Ok(Err(_)) => rec.class("minimal/error"),
+                    Ok(Ok(op)) => {
+                        rec.class("minimal/instantiated");
+                        coll.add_result(apply_all(&minimal, op, 0, &case.coords, &format!("Minimal context, definition {}", show(&def))));
+                    }
+                }
+                rec.count("minimal_op_calls", 1);
+            }
+            if coll.new.is_some() {
+                break 'stages;
+            }
+        }
+    }
+    drop(cleanup);
+    coll.result()
+}
+
+// ---- building registers ------------------------------------------------------------
+
+#[derive(Clone, Debug)]
+struct ItemSpec {
+    suffix: String,
+    body: String,
+    open: u8,
+    close: u8,
+    pre: u8,
+}
+
+const N_OPEN: u8 = 12;
+const N_CLOSE: u8 = 11;
+
+fn open_fence(style: u8, s: &str) -> String {
+    match style {
+        0 => format!("```geodesy:{s}\n"),
+        1 => format!("````geodesy:{s}\n"),
+        2 => format!("```geodesy:{s} \n"),
+        3 => format!("   ```geodesy:{s}\n"),
+        4 => format!("see ```geodesy:{s}\n"),
+        5 => format!("```geodesy:{s} "), // the body starts on the line of the tag
+        6 => format!("~~~geodesy:{s}\n"),
+        7 => format!("```Geodesy:{s}\n"),
+        8 => format!("é```geodesy:{s}\n"),
+        9 => format!("```geodesy:{s}\n```geodesy:{s}\n"),
+        10 => format!("```geodesy: {s}\n"),
+        _ => format!("```geodesy:{s}\n\n\n"),
+    }
+}
+
+/// (text between body and fence, fence)
+fn close_fence(style: u8) -> (&'static str, &'static str) {
+    match style {
+        0 => ("\n", "```\n"),
+        1 => ("\n", ""), // missing
+        2 => ("\n", "````\n"),
+        3 => ("\n", "```é\n"),
+        4 => ("\n", "```"), // nothing after the fence, not even an end of line
+        5 => ("\n", "~~~\n"),
+        6 => ("\n", "  ```\n"),
+        7 => ("\n", "``\n"), // one back tick short
+        8 => ("\n", "```\n```\n"),
+        9 => ("\n\n\n", "```\n"),
+        _ => ("", "```\n"), // glued to the body
+    }
+}
+
+const PRE_TEXTS: [&str; 8] = [
+    "## An item\n\n",
+    "",
+    "\n",
+    "Prose é 日本 😀 `code`\n\n",
+    "```console\n$ echo 55 12 | kp some:thing\n> 56 12\n```\n\n",
+    "> a quote with a stray ``` fence\n",
+    "#\n",
+    "\t \n",
+];
+const HEADERS: [&str; 5] = ["# A register\n\n", "", "\u{feff}# A register\n\n", "``` stray\n", "# A register\n\n```geodesy\naddone\n```\n\n"];
+const TRAILERS: [&str; 7] = ["", "\n## Tests\n\n```console\n$ echo 55 12 | kp {P}:a\n> 56 12\n```\n", "```geodesy:zz\n", "```geodesy:zz", "\n\n\n", "é", "```geodesy:zz\n```"];
+
+fn apply_eol(text: &str, eol: u8) -> String {
+    match eol {
+        0 => text.to_string(),
+        1 => text.replace('\n', "\r\n"),
+        2 => text.replace('\n', "\r"),
+        _ => {
+            let mut out = String::with_capacity(text.len() + 16);
+            let mut k = 0usize;
+            for ch in text.chars() {
+                if ch == '\n' {
+                    out.push_str(["\n", "\r\n", "\r"][k % 3]);
+                    k += 1;
+                } else {
+                    out.push(ch);
+                }
+            }
+            out
+        }
+    }
+}
+const EOL_NAMES: [&str; 4] = ["lf", "crlf", "cr", "mixed-eol"];
+
+fn register_text(prefix: &str, header: &str, items: &[ItemSpec], trailer: &str, eol: u8) -> String {
+    let mut t = String::from(header);
+    for it in items {
+        t.push_str(PRE_TEXTS[it.pre as usize % PRE_TEXTS.len()]);
+        t.push_str(&open_fence(it.open, &it.suffix));
+        let (gap, fence) = close_fence(it.close);
+        t.push_str(&it.body);
+        if !it.body.is_empty() {
+            t.push_str(gap);
+        }
+        t.push_str(fence);
+        t.push('\n');
+    }
+    t.push_str(trailer);
+    apply_eol(&t.replace("{P}", prefix), eol)
+}
+
+fn res_calls(prefix: &str, suffixes: &[String]) -> Vec<ResCall> {
+    let mut v: Vec<ResCall> = vec![];
+    let mut seen = BTreeSet::new();
+    for s in suffixes {
+        if seen.insert(s.clone()) {
+            v.push(ResCall { kind: "item".into(), def: format!("{prefix}:{s}") });
+        }
+    }
+    let first = suffixes.first().cloned().unwrap_or_else(|| "a".into());
+    let last = suffixes.last().cloned().unwrap_or_else(|| "a".into());
+    let mut add = |kind: &str, def: String| v.push(ResCall { kind: kind.into(), def });
+    add("item-inv", format!("{prefix}:{first} inv"));
+    add("item-inv", format!("inv {prefix}:{last}"));
+    add("item-omit", format!("{prefix}:{first} omit_fwd"));
+    add("item-args", format!("{prefix}:{last} x=3 something=2"));
+    add("item-pipeline", format!("{prefix}:{first} | {prefix}:{last}"));
+    add("item-pipeline", format!("addone | {prefix}:{last} inv | noop"));
+    add("absent-item", format!("{prefix}:nosuch"));
+    add("absent-item", format!("{prefix}:{first}x"));
+    add("absent-item", format!("{prefix}:zz"));
+    add("absent-file", format!("nofile{TAG_PH}:{first}"));
+    add("malformed", format!("{prefix}:"));
+    add("malformed", format!(":{first}"));
+    add("malformed", format!("{prefix}:{first}:x"));
+    add("malformed", format!("{prefix}:{first}\n"));
+    add("malformed", format!("{prefix}:é```"));
+    add("malformed", format!("{prefix}:geodesy"));
+    v
+}
+
+fn res_coords() -> Vec<P4> {
+    vec![p4(55.0, 12.0, 0.0, 0.0), p4(f64::NAN, f64::INFINITY, -0.0, 1.0e300)]
+}
+
+const NKG_LIKE: &str = "|   adapt from=neuf_deg\n|   cart ellps=GRS80\n|   helmert\n:      drx = 0.000085  dry = 0.000531  drz = -0.00077 ds = 0\n:       t_epoch=1989    convention=position_vector\n|   helmert inv\n:       x = 0.03054 rx = 0.00141958\n:       convention=position_vector\n|   cart inv ellps=GRS80\n|   adapt to=neuf_deg";
+
+/// Item sets of the enumerated section: (name, prefix, [(suffix, body)]).
+/// Order matters for the expansion bound: an item calling several others comes first and
+/// calls only items without calls; the one self-calling item comes last.
+fn item_sets() -> Vec<(&'static str, String, Vec<(String, String)>)> {
+    let s = |v: &[(&str, &str)]| -> Vec<(String, String)> { v.iter().map(|(a, b)| (a.to_string(), b.to_string())).collect() };
+    vec![
+        ("two-items", format!("reg{TAG_PH}"), s(&[("addone", "addone"), ("addtwo", "addone | addone")])),
+        (
+            "nested-calls",
+            format!("reg{TAG_PH}"),
+            s(&[("top", "{P}:a | {P}:ab inv | {P}:a x=1 | geo:in | geo:out"), ("a", "helmert x=(1)"), ("ab", "addone | addone inv | addone"), ("way", "helmert x=$something"), ("way_too", "addone inv"), ("self", "addone | {P}:self")]),
+        ),
+        ("hostile-names", format!("ré{TAG_PH}"), s(&[("é", "addone # é"), ("日本", "é=1 é"), ("x-1", ""), ("c", "   "), ("d", "# only a comment"), ("e.f", "addone é=日本 | noop")])),
+        ("multi-line", format!("a.b{TAG_PH}"), s(&[("itrf2014-test", NKG_LIKE), ("short", "\n\naddone\n\n")])),
+        ("duplicates", format!("reg{TAG_PH}"), s(&[("a", "addone"), ("a", "addone | addone"), ("b", "helmert x=1"), ("a", "")])),
+        ("nested-fences", format!("reg{TAG_PH}"), s(&[("outer", "addone\n```geodesy:inner\naddone | addone\n```\naddone"), ("inner", "addone inv"), ("after", "noop")])),
+    ]
+}
+
+struct ResBase {
+    label: String,
+    tags: Vec<String>,
+    files: Vec<EnvFile>,
+    victim: usize,
+    calls: Vec<ResCall>,
+}
+
+/// (label, which items: 0 all / 1 first / 2 last, open style, close style)
+const LAYOUTS: [(&str, u8, u8, u8); 19] = [
+    ("well-formed", 0, 0, 0),
+    ("no-close-last", 2, 0, 1),
+    ("no-close-first", 1, 0, 1),
+    ("no-close-any", 0, 0, 1),
+    ("no-eol-after-close", 2, 0, 4),
+    ("four-backticks", 0, 1, 2),
+    ("tag-trailing-space", 1, 2, 0),
+    ("indented", 0, 3, 6),
+    ("inline-tag", 1, 4, 0),
+    ("body-on-tag-line", 1, 5, 0),
+    ("tilde-fences", 1, 6, 5),
+    ("capitalised-tag", 2, 7, 0),
+    ("multi-byte-at-fences", 0, 8, 3),
+    ("tag-doubled", 1, 9, 0),
+    ("space-in-tag", 2, 10, 0),
+    ("short-close", 2, 0, 7),
+    ("close-doubled", 0, 0, 8),
+    ("blank-lines", 0, 11, 9),
+    ("close-glued", 2, 0, 10),
+];
+
+fn res_bases(repo: &PathBuf) -> Vec<ResBase> {
+    let mut out: Vec<ResBase> = vec![];
+    let sets = item_sets();
+    let specs = |items: &[(String, String)], which: u8, open: u8, close: u8| -> Vec<ItemSpec> {
+        let n = items.len();
+        items
+            .iter()
+            .enumerate()
+            .map(|(i, (s, b))| {
+                let hit = which == 0 || (which == 1 && i == 0) || (which == 2 && i + 1 == n);
+                ItemSpec { suffix: s.clone(), body: b.clone(), open: if hit { open } else { 0 }, close: if hit { close } else { 0 }, pre: (i % 4) as u8 }
+            })
+            .collect()
+    };
+    let suffixes = |items: &[(String, String)]| -> Vec<String> { items.iter().map(|x| x.0.clone()).collect() };
+    // 1. item sets x layouts x line endings, register in the cwd tree
+    for (si, (sname, prefix, items)) in sets.iter().enumerate() {
+        for (li, (lname, which, open, close)) in LAYOUTS.iter().enumerate() {
+            for eol in 0..4u8 {
+                // mixed line endings: once per item set and for the plainest layouts only
+                if eol == 3 && li > 1 {
+                    continue;
+                }
+                // the larger sets: every third layout per line ending convention (rotating)
+                if si >= 2 && li > 3 && (li + eol as usize + si) % 3 != 0 {
+                    continue;
+                }
+                let text = register_text(prefix, HEADERS[0], &specs(items, *which, *open, *close), "", eol);
+                out.push(ResBase {
+                    label: lname.to_string(),
+                    tags: vec![format!("items:{sname}"), format!("eol:{}", EOL_NAMES[eol as usize])],
+                    files: vec![EnvFile { place: 0, name: format!("{prefix}.md"), content: Content::Utf8(text) }],
+                    victim: 0,
+                    calls: res_calls(prefix, &suffixes(items)),
+                });
+            }
+        }
+    }
+    // 2. headers x trailers (BOM, stray fences, a console block, a tag at the very end)
+    {
+        let (_, prefix, items) = &sets[0];
+        for (h, header) in HEADERS.iter().enumerate() {
+            for (t, trailer) in TRAILERS.iter().enumerate() {
+                if h == 0 && t == 0 {
+                    continue;
+                }
+                let mut sfx = suffixes(items);
+                sfx.push("zz".into());
+                sfx.push("a".into());
+                let text = register_text(prefix, header, &specs(items, 0, 0, 0), trailer, (h + t) as u8 % 3);
+                out.push(ResBase {
+                    label: "header-trailer".to_string(),
+                    tags: vec![format!("header:{h}"), format!("trailer:{t}"), format!("eol:{}", EOL_NAMES[(h + t) % 3])],
+                    files: vec![EnvFile { place: 0, name: format!("{prefix}.md"), content: Content::Utf8(text) }],
+                    victim: 0,
+                    calls: res_calls(prefix, &sfx),
+                });
+            }
+        }
+    }
+    // 3. the two search paths: the item only in the user tree, in both, behind an unreadable
+    //    (not UTF-8) file or a directory of the same name in the cwd tree; a separate
+    //    resource file next to / instead of the register
+    {
+        let (_, prefix, items) = &sets[0];
+        let good = register_text(prefix, HEADERS[0], &specs(items, 0, 0, 0), "", 0);
+        let other = register_text(prefix, HEADERS[0], &specs(&[("other".to_string(), "noop".to_string())], 0, 0, 0), "", 1);
+        let mut broken = good.clone().into_bytes();
+        broken.insert(20, 0xff);
+        let reg = |place: u8, c: Content| EnvFile { place, name: format!("{prefix}.md"), content: c };
+        let resource = |place: u8, sfx: &str, c: Content| EnvFile { place, name: format!("{prefix}_{sfx}.resource"), content: c };
+        let res_text = "# Stupid way of adding one\r\n\r\naddone|addone inv|addone\r\n";
+        let mut add = |label: &str, files: Vec<EnvFile>, victim: usize| {
+            out.push(ResBase { label: format!("places/{label}"), tags: vec![], files, victim, calls: res_calls(prefix, &suffixes(items)) });
+        };
+        add("user-tree-only", vec![reg(1, Content::Utf8(good.clone()))], 0);
+        add("cwd-lacks-item-user-has-it/cut-user", vec![reg(0, Content::Utf8(other.clone())), reg(1, Content::Utf8(good.clone()))], 1);
+        add("cwd-lacks-item-user-has-it/cut-cwd", vec![reg(0, Content::Utf8(other.clone())), reg(1, Content::Utf8(good.clone()))], 0);
+        add("both-have-it/cut-cwd", vec![reg(0, Content::Utf8(good.clone())), reg(1, Content::Utf8(apply_eol(&good, 1)))], 0);
+        add("cwd-not-utf8/cut-user", vec![reg(0, Content::from_bytes(broken.clone())), reg(1, Content::Utf8(good.clone()))], 1);
+        add("cwd-not-utf8/cut-cwd", vec![reg(0, Content::from_bytes(broken)), reg(1, Content::Utf8(good.clone()))], 0);
+        add("cwd-directory/cut-user", vec![reg(0, Content::Directory), reg(1, Content::Utf8(good.clone()))], 1);
+        add("resource-file/cwd", vec![resource(0, "addone", Content::Utf8(res_text.into()))], 0);
+        add("resource-file/user", vec![resource(1, "addtwo", Content::Utf8(res_text.replace("\r\n", "\n")))], 0);
+        add("resource-file-and-register/cut-resource", vec![resource(0, "addtwo", Content::Utf8(res_text.into())), reg(0, Content::Utf8(good.clone()))], 0);
+        add("resource-file-and-register/cut-register", vec![resource(1, "addone", Content::Utf8(res_text.into())), reg(0, Content::Utf8(good.clone()))], 1);
+        add("resource-file-multi-byte", vec![resource(0, "addone", Content::Utf8("\u{feff}# é 日本 😀\naddone é=日本 | addone inv # 😀\n".into()))], 0);
+        add("resource-file-directory", vec![resource(0, "addone", Content::Directory), reg(0, Content::Utf8(good.clone()))], 1);
+        add("resource-file-empty", vec![resource(0, "addone", Content::Utf8(" \r\n\t\n".into())), resource(1, "addtwo", Content::Utf8(String::new()))], 0);
+    }
+    // 4. the registers and the resource file shipped with the repository under test
+    for (file, prefix0) in [("stupid.md", "stupid"), ("nkg.md", "nkg"), ("stupid_way.resource", "stupid")] {
+        let Ok(text) = std::fs::read_to_string(repo.join("geodesy").join("resources").join(file)) else { continue };
+        let prefix = format!("{prefix0}{TAG_PH}");
+        let text = text.replace(&format!("{prefix0}:"), &format!("{prefix}:"));
+        let mut sfx: Vec<String> = vec![];
+        let mut rest: &str = &text;
+        while let Some(i) = rest.find("```geodesy:") {
+            rest = &rest[i + 11..];
+            sfx.push(rest.chars().take_while(|c| !c.is_whitespace()).collect());
+        }
+        if sfx.is_empty() {
+            sfx.push("way".into());
+        }
+        let mut calls = res_calls(&prefix, &sfx);
+        if text.len() > 4000 {
+            // a large register of long pipelines: the items, one inverted, one absent
+            let mut inv = 0;
+            calls.retain(|c| c.kind == "item" || c.def.ends_with(":nosuch") || (c.kind == "item-inv" && std::mem::replace(&mut inv, 1) == 0));
+        }
+        out.push(ResBase {
+            label: format!("shipped/{file}"),
+            tags: vec![],
+            files: vec![EnvFile { place: 0, name: file.replacen(prefix0, &prefix, 1), content: Content::Utf8(text) }],
+            victim: 0,
+            calls,
+        });
+    }
+    out
+}
+
+/// cuts per case in the enumerated section (consecutive byte lengths, longest first)
+const CUTS_PER_CASE: usize = 8;
+
+// ---- random environments -----------------------------------------------------------
+
+const RES_PREFIXES: [&str; 6] = ["reg", "ré", "a.b", "R-1", "日", "x y"];
+const RES_SUFFIXES: [&str; 12] = ["a", "ab", "way", "way_too", "b", "é", "x-1", "itrf2014-etrs89dk", "日本", "A", "a_", "0"];
+/// bodies without macro calls of their own
+const LEAF_BODIES: [&str; 30] = [
+    "addone",
+    "addone | addone",
+    "addone inv",
+    "addone | addone inv | addone",
+    "helmert x=1",
+    "helmert x=(1)",
+    "helmert x=$something",
+    "utm zone=32",
+    "cart ellps=intl | helmert x=-87 y=-96 z=-120 | cart inv ellps=GRS80",
+    NKG_LIKE,
+    "# only a comment",
+    "",
+    "   ",
+    "\n\n",
+    "addone # trailing comment é",
+    "# leading comment\naddone",
+    "geo:in | utm zone=32",
+    "foo",
+    "é",
+    "addone é=1",
+    "addone | ",
+    "| addone",
+    "stack push=1,2 | stack pop=2,1",
+    "push v_1 | addone | pop v_1",
+    "gridshift grids=nonexistent.gsb",
+    "proj=utm zone=32",
+    "+proj=utm +zone=32",
+    "addone\n```geodesy:inner\nnoop\n```",
+    "helmert x=1 y=``",
+    "tmerc lat_0=é lon_0=9",
+];
+const RES_FILE_BODIES: [&str; 10] = [
+    "# Stupid way of adding one\r\n\r\naddone|addone inv|addone\r\n",
+    "addone",
+    "",
+    " \n\t\r\n",
+    "\u{feff}addone",
+    "# only a comment\n",
+    "```geodesy:a\naddone\n```\n",
+    "helmert x=$something\n",
+    "é",
+    "addone |\n",
+];
+const MUT_BYTES: [&[u8]; 26] = [
+    b"\xff", b"\x80", b"\xc3", b"\xe6\x97", b"\xf0\x9f\x98", b"\0", b"`", b"```", b"\r", b"\n", b"\r\n", b":", "é".as_bytes(), "日".as_bytes(), "😀".as_bytes(), b"\xef\xbb\xbf", b" ", b"\t", b"#", b"|", b"geodesy:",
+    b"```geodesy:", b"\xe2\x80\xa8", b"~", b"```geodesy:a\n", b"\x1a",
+];
+
+fn mutate_bytes(b: &mut Vec<u8>, muts: &[(u16, u16, u16)]) {
+    for (kind, pos, what) in muts {
+        let n = b.len();
+        let at = pick(*pos, n + 1);
+        let seq = MUT_BYTES[pick(*what, MUT_BYTES.len())];
+        match pick(*kind, 7) {
+            0 | 1 => {
+                for (i, x) in seq.iter().enumerate() {
+                    b.insert(at + i, *x);
+                }
+            }
+            2 => {
+                // overwrite
+                for (i, x) in seq.iter().enumerate() {
+                    if at + i < b.len() {
+                        b[at + i] = *x;
+                    } else {
+                        b.push(*x);
+                    }
+                }
+            }
+            3 => {
+                if at < n {
+                    b.remove(at);
+                }
+            }
+            4 => {
+                let end = (at + 1 + (*what as usize % 16)).min(n);
+                if at < end {
+                    b.drain(at..end);
+                }
+            }
+            5 => {
+                let end = (at + 1 + (*what as usize % 40)).min(n);
+                let span: Vec<u8> = b[at.min(n)..end].to_vec();
+                for (i, x) in span.into_iter().enumerate() {
+                    b.insert(end + i, x);
+                }
+            }
+            _ => {
+                if at + 1 < n {
+                    b.swap(at, at + 1);
+                }
+            }
+        }
+    }
+}
+
+#[derive(Clone, Debug)]
+struct RawItem {
+    suffix: u16,
+    body: u16,
+    open: u8,
+    close: u8,
+    pre: u8,
+}
+#[derive(Clone, Debug)]
+struct RawRes {
+    prefix: u8,
+    nitems: u8,
+    items: Vec<RawItem>,
+    anomalies: u8,
+    eol: u8,
+    header: u8,
+    trailer: u8,
+    long: u8,
+    place: u8,
+    second: u8,
+    second_body: u16,
+    refs: u8,
+    muts: Vec<(u16, u16, u16)>,
+    cuts: Vec<u16>,
+    calls: Vec<u16>,
+    coords: Vec<P4>,
+}
+
+fn raw_res() -> impl Strategy<Value = RawRes> {
+    let item = (any::<u16>(), any::<u16>(), any::<u8>(), any::<u8>(), any::<u8>()).prop_map(|(suffix, body, open, close, pre)| RawItem { suffix, body, open, close, pre });
+    let a = (any::<u8>(), 1u8..=4, prop::collection::vec(item, 4..=4), any::<u8>(), any::<u8>(), any::<u8>(), any::<u8>(), any::<u8>());
+    let b = (
+        any::<u8>(),
+        any::<u8>(),
+        any::<u16>(),
+        any::<u8>(),
+        prop_oneof![2 => Just(vec![]), 3 => prop::collection::vec((any::<u16>(), any::<u16>(), any::<u16>()), 1..=3)],
+        prop::collection::vec(any::<u16>(), 0..=3),
+        prop::collection::vec(any::<u16>(), 2..=5),
+        prop::collection::vec(coord(), 0..=2),
+    );
+    (a, b).prop_map(|((prefix, nitems, items, anomalies, eol, header, trailer, long), (place, second, second_body, refs, muts, cuts, calls, coords))| RawRes {
+        prefix,
+        nitems,
+        items,
+        anomalies,
+        eol,
+        header,
+        trailer,
+        long,
+        place,
+        second,
+        second_body,
+        refs,
+        muts,
+        cuts,
+        calls,
+        coords,
+    })
+}
+
+const LONG_LINE: usize = 66_000;
+
+fn build_res(r: &RawRes) -> ResCase {
+    let prefix = format!("{}{TAG_PH}", RES_PREFIXES[pick(w(r.prefix), RES_PREFIXES.len())]);
+    let mutated = !r.muts.is_empty();
+    // anomalies: none / one item / every item draws its own fence styles
+    let anomalies = pick_w(w(r.anomalies), &[(3, 0u8), (3, 1), (3, 2)]);
+    let n = r.nitems as usize;
+    let mut items: Vec<ItemSpec> = vec![];
+    for (i, it) in r.items.iter().take(n).enumerate() {
+        let odd = anomalies == 2 || (anomalies == 1 && i == (r.anomalies as usize) % n);
+        items.push(ItemSpec {
+            suffix: RES_SUFFIXES[pick(it.suffix, RES_SUFFIXES.len())].to_string(),
+            body: LEAF_BODIES[pick(it.body, LEAF_BODIES.len())].to_string(),
+            open: if odd { it.open % N_OPEN } else { 0 },
+            close: if odd { it.close % N_CLOSE } else { 0 },
+            pre: it.pre,
+        });
+    }
+    // macro calls inside the register: only in files that get no byte-level mutations; the
+    // calling item first (it calls items without calls), the self-calling item last
+    let with_refs = !mutated && r.refs % 2 == 0;
+    if with_refs {
+        let callee = items[0].suffix.clone();
+        let body = match r.refs % 3 {
+            0 => format!("{{P}}:{callee} | {{P}}:{callee} inv"),
+            1 => format!("addone | {{P}}:{callee} x=2 | {{P}}:nosuch"),
+            _ => format!("{{P}}:{callee}"),
+        };
+        items.insert(0, ItemSpec { suffix: "top".into(), body, open: 0, close: 0, pre: 0 });
+        if r.refs % 4 < 2 {
+            items.push(ItemSpec { suffix: "self".into(), body: "addone | {P}:self".into(), open: 0, close: if r.refs % 8 < 4 { 0 } else { 1 }, pre: 1 });
+        }
+    }
+    let header = HEADERS[pick_w(w(r.header), &[(6, 0usize), (2, 1), (2, 2), (1, 3), (1, 4)])];
+    let trailer = TRAILERS[pick_w(w(r.trailer), &[(6, 0usize), (if mutated { 0 } else { 2 }, 1), (2, 2), (2, 3), (1, 4), (1, 5), (1, 6)])];
+    let eol = pick_w(w(r.eol), &[(4, 0u8), (3, 1), (2, 2), (2, 3)]);
+    let mut text = register_text(&prefix, header, &items, trailer, eol);
+    // very long lines: prose before the first tag, a comment inside the first body, the end
+    let long = pick_w(w(r.long), &[(13, 0u8), (1, 1), (1, 2), (1, 3)]);
+    if long > 0 {
+        let line = match r.long % 3 {
+            0 => "x".repeat(LONG_LINE),
+            1 => "é".repeat(LONG_LINE / 2),
+            _ => "` ".repeat(LONG_LINE / 2),
+        };
+        match long {
+            1 => text = format!("{line}\n{text}"),
+            2 => {
+                let at = text.find("```geodesy:").and_then(|i| text[i..].find(|c: char| c == '\n' || c == '\r').map(|j| i + j + 1)).unwrap_or(text.len());
+                text.insert_str(at, &format!("# {line}\n"));
+            }
+            _ => text.push_str(&line),
+        }
+    }
+    let mut bytes = text.into_bytes();
+    mutate_bytes(&mut bytes, &r.muts);
+    let place = pick_w(w(r.place), &[(5, 0u8), (3, 1)]);
+    let mut files = vec![EnvFile { place, name: format!("{prefix}.md"), content: Content::from_bytes(bytes) }];
+    let first = items.iter().find(|i| i.suffix != "top").map(|i| i.suffix.clone()).unwrap_or_else(|| "a".into());
+    let second = pick_w(w(r.second), &[(6, 0u8), (2, 1), (3, 2), (1, 3), (1, 4), (1, 5)]);
+    let second_label = ["single", "second-register", "resource-file", "directory-for-register", "directory-for-resource", "not-utf8-register"][second as usize];
+    match second {
+        1 => {
+            let other = vec![ItemSpec { suffix: "zz".into(), body: "noop".into(), open: 0, close: 0, pre: 0 }, ItemSpec { suffix: first.clone(), body: "addone".into(), open: 0, close: (r.second_body % 2) as u8, pre: 1 }];
+            files.push(EnvFile { place: 1 - place, name: format!("{prefix}.md"), content: Content::Utf8(register_text(&prefix, HEADERS[0], &other[..1 + (r.second_body as usize / 2) % 2], "", (r.second_body % 3) as u8)) });
+        }
+        2 => {
+            let mut b = RES_FILE_BODIES[pick(r.second_body, RES_FILE_BODIES.len())].as_bytes().to_vec();
+            if mutated && r.second_body % 2 == 0 {
+                mutate_bytes(&mut b, &r.muts[..1]);
+            }
+            files.push(EnvFile { place: (r.second_body % 2) as u8, name: format!("{prefix}_{first}.resource"), content: Content::from_bytes(b) });
+        }
+        3 => {
+            // the register proper moves to the user tree, a directory takes its name in the cwd tree
+            files[0].place = 1;
+            files.push(EnvFile { place: 0, name: format!("{prefix}.md"), content: Content::Directory });
+        }
+        4 => files.push(EnvFile { place: (r.second_body % 2) as u8, name: format!("{prefix}_{first}.resource"), content: Content::Directory }),
+        5 => {
+            files[0].place = 1;
+            files.push(EnvFile { place: 0, name: format!("{prefix}.md"), content: Content::Raw(b"# A register\n\n```geodesy:\xff\nnoop\n```\n".to_vec()) });
+        }
+        _ => {}
+    }
+    // which file is rewritten between the calls: the register, now and then the other file
+    let victim = if files.len() > 1 && files[1].content != Content::Directory && r.second_body % 5 == 0 { 1 } else { 0 };
+    let len = files[victim].content.bytes().map(|b| b.len()).unwrap_or(0);
+    // cuts: anywhere, or within the last item / the last 40 bytes (where the fence is)
+    let cuts: Vec<usize> = r.cuts.iter().enumerate().map(|(i, c)| if i % 2 == 0 { pick(*c, len + 1) } else { len - pick(*c, len.min(40) + 1).min(len) }).collect();
+    let mut sfx: Vec<String> = items.iter().map(|i| i.suffix.clone()).collect();
+    sfx.push("zz".into());
+    let all = res_calls(&prefix, &sfx);
+    let mut calls: Vec<ResCall> = all.iter().filter(|c| c.kind == "item").cloned().collect();
+    for c in &r.calls {
+        calls.push(all[pick(*c, all.len())].clone());
+    }
+    let tags = vec![format!("files:{second_label}"), format!("eol:{}", EOL_NAMES[eol as usize]), format!("cuts:{}", r.cuts.len()), format!("mutations:{}", r.muts.len())];
+    let label = format!(
+        "{}{}{}{}",
+        ["well-formed", "one-odd-item", "odd-items"][anomalies as usize],
+        if mutated { "+bytes" } else { "" },
+        if with_refs { "+calls" } else { "" },
+        if long > 0 { "+long-line" } else { "" }
+    );
+    ResCase { label, tags, files, victim, cuts, calls, coords: r.coords.clone() }
+}
+
+/// The two resource sections, run inside the private tree.
+fn resource_sections(run: &mut Run, repo: &PathBuf) {
+    let world = setup_res_world();
+    let old_xdg = std::env::var_os("XDG_DATA_HOME");
+    // (only the main thread is active between sections: the pool threads are idle)
+    std::env::set_var("XDG_DATA_HOME", world.root.join("u"));
+    if let Err(e) = std::env::set_current_dir(world.root.join("w")) {
+        eprintln!("cannot chdir to {}: {e}", world.root.join("w").display());
+        std::process::exit(2);
+    }
+    {
+        let bases = res_bases(repo);
+        // index space: base x block of CUTS_PER_CASE consecutive cut lengths
+        let mut starts: Vec<usize> = vec![];
+        let mut total = 0usize;
+        let mut bytes = 0usize;
+        for b in &bases {
+            starts.push(total);
+            let len = b.files[b.victim].content.bytes().map(|x| x.len()).unwrap_or(0);
+            bytes += len;
+            total += (len + 1).div_ceil(CUTS_PER_CASE);
+        }
+        run.note("resource_environments", serde_json::json!({"base_environments": bases.len(), "bytes_cut_one_by_one": bytes, "cuts_per_case": CUTS_PER_CASE}));
+        let coords = res_coords();
+        run.enumerate(
+            "resource-files-truncated",
+            "Plain context in a private cwd / XDG_DATA_HOME tree: register files <prefix>.md (6 item sets incl. nested macro calls, multi-byte names, duplicates, nested fences x 19 fence layouts: missing / doubled / glued / indented / tilde / four-back-tick / one-back-tick-short fences, tags with spaces, body on the tag line x LF / CRLF / CR / mixed; headers with BOM and stray fences, trailers with a console block or a tag at the very end), the same item in the cwd tree, the user tree or both, behind a non-UTF-8 file or a directory, separate .resource files, and the registers shipped with the repository; each environment first intact, then one file rewritten at EVERY byte length (longest first, 8 lengths per case, same context) and after every rewrite op() for every item, with modifiers / arguments / in pipelines, absent items, absent files, malformed names; handles are applied in both orders; the same names on a Minimal context; non-trivial = instantiated or an error other than NotFound",
+            total,
+            move |i| {
+                let bi = starts.partition_point(|s| *s <= i) - 1;
+                let b = &bases[bi];
+                let len = b.files[b.victim].content.bytes().map(|x| x.len()).unwrap_or(0);
+                let k = i - starts[bi];
+                // cut lengths len, len-1, .., 0 in blocks
+                let cuts: Vec<usize> = (0..CUTS_PER_CASE).filter_map(|j| len.checked_sub(k * CUTS_PER_CASE + j)).collect();
+                ResCase { label: b.label.clone(), tags: b.tags.clone(), files: b.files.clone(), victim: b.victim, cuts, calls: b.calls.clone(), coords: coords.clone() }
+            },
+            check_res,
+        );
+    }
+    let n = run.scale(5_000, 300_000);
+    run.section(
+        "resource-files-random",
+        "as resource-files-truncated, but the environment is drawn: 1..4 items (12 suffixes, 30 bodies incl. empty / comment-only / multi-line / nested fence / hostile), fence styles per item (12 opening x 11 closing), prose between items, header, trailer, line endings, a line of 66 000 characters (before the first tag, inside a body, at the end), 0..3 byte-level mutations (invalid UTF-8, NUL, BOM, fences, CR, multi-byte characters; insert / overwrite / delete / delete range / duplicate span / swap), a second file (register in the other tree, .resource file, a directory or a non-UTF-8 file in the way), 0..3 rewrites of one file cut at a drawn length; prefixes with multi-byte characters, dots, spaces",
+        n,
+        || raw_res().prop_map(|r| build_res(&r)),
+        check_res,
+    );
+    let _ = std::env::set_current_dir(repo);
+    match old_xdg {
+        Some(v) => std::env::set_var("XDG_DATA_HOME", v),
+        None => std::env::remove_var("XDG_DATA_HOME"),
+    }
+    let _ = std::fs::remove_dir_all(&world.root);
+}
+
+// =====================================================================================
 // main
 // =====================================================================================
 
@@ -2258,6 +3240,7 @@ fn main() {
     run.assume("termination is decided by a watchdog: 60 s per case in-process (normal cost: micro- to milliseconds), 3 s in the child-process probe");
     run.assume("grid names handed to Plain never contain '/', so no file outside <repo>/geodesy is opened (e.g. /dev/zero would be read without bound)");
     run.assume("macro libraries have at most 3 macros of at most 2 steps: expansion size stays small; exponential-size but finite expansions are not treated as hangs");
+    run.assume("resource sections: register / resource files are generated into a private tree that is the process cwd and XDG_DATA_HOME only while these sections run; in every generated file the text after a tag calls at most one item at or before it (macro expansion stays linear in the nesting limit of 100); file names never contain '/'");
     run.assume("release build with overflow-checks and debug-assertions on: arithmetic overflow on user-supplied numbers surfaces as a panic, as it does in a debug build of the library");
 
     // a step made of modifiers only: detect once, in a child that can be killed
@@ -2416,6 +3399,9 @@ fn main() {
         ell_case,
         check_ell,
     );
+
+    // 6. resource files on disk (changes cwd and XDG_DATA_HOME while it runs, restores them)
+    resource_sections(&mut run, &repo);
 
     // coverage notes (not in replay / single-section mode)
     if !std::env::args().any(|a| a == "--replay" || a == "--only") {
